@@ -158,7 +158,9 @@ fn prep_oracle(c: &PrepCase, cl: &mut u64) -> Result<(), Failure> {
         _ => vec![ind(100, c.p1), ind(101, c.p2)],
     };
     let below = vec![ind(900, 0.0)];
-    let mut st = state_with::<RealP>(vec![below.clone(), population.clone(), reactants, products.clone()], c.seed);
+    // one seed in four: the generator first replays a script of edge-value words (energy splits of exactly 0, of the
+    // largest value below 1, ...): the bookkeeping is exact for every draw
+    let mut st = crate::fixtures::state_with_scripted::<RealP>(vec![below.clone(), population.clone(), reactants, products.clone()], c.seed);
     st.insert(ChemicalReaction::<RealP>((0..n).map(|i| Molecule { kinetic_energy: pop[i].1, num_hit: 3, min_hit: 1, best: population[i].clone() }).collect()));
     st.insert(EnergyBuffer(c.buffer));
     let comp: Box<dyn Component<RealP>> = match c.reaction {
